@@ -48,6 +48,10 @@ RClose(ret) ==
     /\ (ret = 1 /\ allok /\ eos) => (f.valid /\ matches /\ delivered = f.total)
     /\ phase' = "closed" /\ closed' = ret /\ UNCHANGED <<f, delivered, allok, matches, eos, base>>
 
+\* The process ended inside a call (allocation-failure families only: zchunk's policy for some refused allocations is
+\* exit(), uthash's uthash_fatal).  Nothing was reported as success, nothing is promised.
+RAbort == phase' = "closed" /\ closed' = 0 /\ UNCHANGED <<f, delivered, allok, matches, eos, base>>
+
 \* the same obligation for a tool that read the whole stream and exited with success
 RToolExit(status, outEq) == (status = 0) => (f.valid /\ outEq)
 
